@@ -62,7 +62,9 @@ func c08D(k uint64) byte { return verifUF8("D", k) }
 //verif:bounds windowStart symbolic in [1,2^40); 0..2 queued fragments at windowStart+1..+4 (duplicates allowed); arriving frame at windowStart-2..+5, each data frame carries one ghost byte D(k), the FIN frame F (symbolic) carries none; no frame beyond F exists
 //verif:cover delivered-some;delivered-none;fin-consumed;duplicate-dropped
 //verif:timeout 600
-func VH_C08_receiver_step_delivers_in_order_prefix() {
+func VH_C08_receiver_step_delivers_in_order_prefix() { c08ReceiverStep(2) }
+
+func c08ReceiverStep(maxQueued int) {
 	r := newReceiver(logrus.NewEntry(logrus.New()))
 	ws := verifU64("windowStart")
 	verifAssume(ws >= 3 && ws < 1<<40)
@@ -70,7 +72,8 @@ func VH_C08_receiver_step_delivers_in_order_prefix() {
 	F := verifU64("fin-frame")
 	verifAssume(F >= ws)
 	var have [8]bool // have[i]: frame ws+i is available after this step
-	q := verifPick("queued", 0, 1, 2)
+	q := verifPick("queued", 0, 1, 2, 3)
+	verifAssume(q <= maxQueued)
 	for i := 0; i < q; i++ {
 		d := verifPick("queued-offset", 1, 2, 3, 4)
 		p := ws + uint64(d)
@@ -429,3 +432,11 @@ func c08Twin(prop string) {
 		verifAssert(ok && got == rel, prop+": reaping an unreliable tube leaves the reliable tube with the same identifier mapped (its stream must stay deliverable)")
 	}
 }
+
+//verif:prop C08
+//verif:replay none
+//verif:tier thorough
+//verif:bounds as VH_C08_receiver_step_delivers_in_order_prefix with 0..3 queued fragments
+//verif:cover delivered-some;delivered-none;fin-consumed;duplicate-dropped
+//verif:timeout 3000
+func VH_C08_receiver_step_delivers_in_order_prefix_3queued() { c08ReceiverStep(3) }
